@@ -74,6 +74,34 @@ fn report_failure(args: &Args, rep: &mut Report, ast: &OpeningHoursExpression, h
 pub fn run(args: &Args, rep: &mut Report) {
     let n = args.cases(360_000, 3_000_000);
     let sweep = if args.thorough() { 800 } else { 0 };
+    // combination grid: pairs / triples of canonical rules over plain and wrapping ranges
+    for (i, text) in normalize_grid(args.thorough(), args.seed).iter().enumerate() {
+        if (i as u64) % args.of.max(1) != args.worker {
+            continue;
+        }
+        let Ok(ast) = lib_parse(text) else {
+            rep.count("combination_grid_skipped_parser_rejects");
+            continue;
+        };
+        rep.evaluations += 1;
+        rep.begin(text);
+        let mut r = Rng::new(args.seed, 0x9c1d, i as u64);
+        match check(text, &ast, &HolSpec::None, &mut r, 0) {
+            Ok(o) => {
+                rep.count("combination_grid_expressions");
+                if o.changed {
+                    rep.count("combination_grid_normal_form_differs");
+                    rep.nontrivial(crate::rng::hash64(&format!("{ast:?}")));
+                }
+            }
+            Err(msg) => {
+                report_failure(args, rep, &ast, &HolSpec::None, &msg);
+                if rep.full() {
+                    return;
+                }
+            }
+        }
+    }
     // exhaustive part: every value of every atomic field, alone and followed by a second canonical
     // rule (so that the paving has something to fold it with)
     for (i, ast) in atomic_asts().iter().enumerate() {
